@@ -15,6 +15,7 @@ import (
 	"sync"
 	"time"
 
+	gferrors "github.com/go-faster/errors"
 	"github.com/gotd/neo"
 
 	"github.com/gotd/td/clock"
@@ -135,11 +136,17 @@ func facts(f *hc.Facts) {
 	} else {
 		f.Missing("sepByte", fmt.Sprintf("Split separator %q / Join separator %q are not one and the same byte", splitSep, joinSep))
 	}
-	if minParts != "" {
-		f.Raw(fmt.Sprintf("def minParts : Nat := %s -- `len(parts) < %s` in tgerr.extractArgument", minParts, minParts))
-	} else {
-		f.Missing("minParts", "`len(parts) < N` not found in extractArgument")
+	_ = minParts
+	// `len(parts) < 2`: the guard itself, translated (a0 = len(parts))
+	var fewParts ast.Expr
+	if fd != nil {
+		for _, c := range hc.IfConds(fd.Body) {
+			if strings.Contains(f.Src(c), "len(") && fewParts == nil {
+				fewParts = c
+			}
+		}
 	}
+	f.TranslateExprAuto("tooFewParts", "tgerr", fewParts, hc.ExprOpt{})
 	f.TranslateFuncs("ascii", "isDigit", "IsDigit")
 
 	// flood wait: constants, the list, the unit and the margin
@@ -183,50 +190,30 @@ func facts(f *hc.Facts) {
 	} else {
 		f.Missing("floodWaitErrors", "tgerr.FloodWaitErrors is not a literal list of string constants")
 	}
-	// AsFloodWait: return time.Second * time.Duration(rpcErr.Argument), true
-	unit := int64(0)
+	// AsFloodWait: `return <duration expr>, true` — the duration as a function of rpcErr.Argument
+	var durExpr ast.Expr
 	if fd := f.FuncDecl("tgerr", "AsFloodWait"); fd != nil {
 		ast.Inspect(fd.Body, func(n ast.Node) bool {
-			if be, ok := n.(*ast.BinaryExpr); ok && be.Op == token.MUL {
-				if strings.Contains(f.Src(be.Y), "rpcErr.Argument") {
-					if v, ok := evalDur(be.X); ok {
-						unit = v
-					}
-				} else if strings.Contains(f.Src(be.X), "rpcErr.Argument") {
-					if v, ok := evalDur(be.Y); ok {
-						unit = v
-					}
-				}
+			if rs, ok := n.(*ast.ReturnStmt); ok && len(rs.Results) == 2 && f.Src(rs.Results[1]) == "true" && durExpr == nil {
+				durExpr = rs.Results[0]
 			}
 			return true
 		})
 	}
-	if unit != 0 {
-		f.Raw(fmt.Sprintf("def secondNs : Nat := %d -- factor of rpcErr.Argument in tgerr.AsFloodWait (nanoseconds)", unit))
-	} else {
-		f.Missing("secondNs", "`<unit> * time.Duration(rpcErr.Argument)` not found in AsFloodWait")
-	}
-	// FloodWait: opt.clock.Timer(d + 1*time.Second)
-	margin := int64(-1)
+	f.TranslateExprAuto("floodDuration", "tgerr", durExpr, hc.ExprOpt{})
+	// FloodWait: the argument of clock.Timer(...) as a function of d
+	var timerArg ast.Expr
 	if fd := f.FuncDecl("tgerr", "FloodWait"); fd != nil {
 		ast.Inspect(fd.Body, func(n ast.Node) bool {
-			if ce, ok := n.(*ast.CallExpr); ok && len(ce.Args) == 1 {
+			if ce, ok := n.(*ast.CallExpr); ok && len(ce.Args) == 1 && timerArg == nil {
 				if se, ok := ce.Fun.(*ast.SelectorExpr); ok && se.Sel.Name == "Timer" {
-					if be, ok := ce.Args[0].(*ast.BinaryExpr); ok && be.Op == token.ADD && f.Src(be.X) == "d" {
-						if v, ok := evalDur(be.Y); ok {
-							margin = v
-						}
-					}
+					timerArg = ce.Args[0]
 				}
 			}
 			return true
 		})
 	}
-	if margin >= 0 {
-		f.Raw(fmt.Sprintf("def marginNs : Nat := %d -- `clock.Timer(d + margin)` in tgerr.FloodWait (nanoseconds)", margin))
-	} else {
-		f.Missing("marginNs", "`Timer(d + <const>)` not found in FloodWait")
-	}
+	f.TranslateExprAuto("floodTimerArg", "tgerr", timerArg, hc.ExprOpt{})
 }
 
 // ---- implementation adapters ------------------------------------------------------------
@@ -258,12 +245,55 @@ func (c *recClock) Ticker(d time.Duration) clock.Ticker { return c.t.Ticker(d) }
 
 var epoch = time.Date(2024, 1, 1, 0, 0, 0, 0, time.UTC)
 
+// patience bounds the waits that only end this way when the implementation is broken (a goroutine that
+// never returns); it is generous because the machine may be heavily loaded.
+const patience = 3 * time.Minute
+
+// firedClock hands out timers that have already fired (both `select` cases can be ready at once).
+type firedClock struct{ fired bool }
+
+type fixedTimer struct{ ch chan time.Time }
+
+func (t fixedTimer) C() <-chan time.Time   { return t.ch }
+func (t fixedTimer) Stop() bool            { return true }
+func (t fixedTimer) Reset(d time.Duration) {}
+
+func (c firedClock) Now() time.Time { return epoch }
+func (c firedClock) Timer(d time.Duration) clock.Timer {
+	ch := make(chan time.Time, 1)
+	if c.fired {
+		ch <- epoch
+	}
+	return fixedTimer{ch}
+}
+func (c firedClock) Ticker(d time.Duration) clock.Ticker { return neo.NewTime(epoch).Ticker(d) }
+
+type plainErr struct{ s string }
+
+func (p plainErr) Error() string { return p.s }
+
+// chain wraps err in PRNG-chosen layers that errors.As must look through.
+func chain(r *hc.RNG, err error) error {
+	for i := r.Intn(4); i > 0; i-- {
+		switch r.Intn(3) {
+		case 0:
+			err = fmt.Errorf("layer %d: %w", i, err)
+		case 1:
+			err = gferrors.Wrap(err, "wrapped")
+		default:
+			err = gferrors.Wrapf(err, "call %d", i)
+		}
+	}
+	return err
+}
+
 // floodTimer returns "none" or the nanoseconds FloodWait asks the clock to wait.
 func floodTimer(e error) string {
 	rc := &recClock{t: neo.NewTime(epoch)}
 	done := make(chan struct{})
 	var ok bool
 	var err error
+	start := time.Now()
 	go func() {
 		defer close(done)
 		ok, err = tgerr.FloodWait(context.Background(), e, tgerr.FloodWaitWithClock(rc))
@@ -286,7 +316,7 @@ func floodTimer(e error) string {
 		// a zero timer of neo fires on the next Travel
 		rc.t.Travel(time.Nanosecond)
 		runtime.Gosched()
-		if i > 1_000_000 {
+		if i%1024 == 1023 && time.Since(start) > patience {
 			return "stuck"
 		}
 	}
@@ -306,7 +336,7 @@ func travelCheck(e error, want time.Duration) string {
 	case <-obs:
 	case ok := <-done:
 		return fmt.Sprintf("returned %v without creating a timer", ok)
-	case <-time.After(5 * time.Second):
+	case <-time.After(patience):
 		return "no timer created"
 	}
 	c.Travel(want - time.Nanosecond)
@@ -325,7 +355,7 @@ func travelCheck(e error, want time.Duration) string {
 			return "returned false"
 		}
 		return ""
-	case <-time.After(5 * time.Second):
+	case <-time.After(patience):
 		return "still waiting after the full duration"
 	}
 }
@@ -455,6 +485,7 @@ func run(c *hc.Ctx) error {
 		}
 	}
 
+	var selLines, selGot []string
 	// ---- 2. FloodWait against a travelling fake clock, and cancellation
 	t := c.N(500, 5000)
 	for i := 0; i < t; i++ {
@@ -473,6 +504,148 @@ func run(c *hc.Ctx) error {
 		if ok || !errors.Is(err, context.Canceled) {
 			c.Fail("flood-cancel", "msg "+msg, fmt.Sprintf("cancelled context: ok=%v err=%v", ok, err))
 		}
+	}
+
+	// ---- 2b. both select cases ready / one ready: the result must be one the model allows
+	sel := c.N(2000, 20000)
+	for i := 0; i < sel; i++ {
+		flood := r.Chance(80)
+		msg := hc.Pick(r, tgerr.ErrFloodWait, tgerr.ErrPremiumFloodWait) + "_" + strconv.Itoa(r.Intn(100))
+		if !flood {
+			msg = hc.Pick(r, "FILE_MIGRATE_2", "FLOOD_WAITING_3", "X", "")
+		}
+		e := tgerr.New(420, msg)
+		timerFired, ctxDone := r.Bool(), r.Bool()
+		if flood && !timerFired && !ctxDone {
+			ctxDone = true // would block for ever
+		}
+		ctx, cancel := context.WithCancel(context.Background())
+		if ctxDone {
+			cancel()
+		}
+		ok, err := tgerr.FloodWait(ctx, e, tgerr.FloodWaitWithClock(firedClock{fired: timerFired}))
+		cancel()
+		got := "other"
+		switch {
+		case ok && err == error(e):
+			got = "waited"
+		case !ok && errors.Is(err, context.Canceled):
+			got = "cancelled"
+		case !ok && err == error(e):
+			got = "notflood"
+		}
+		bit := map[bool]string{true: "1", false: "0"}
+		line := "outcomes " + hc.Hex([]byte(msg)) + " " + bit[timerFired] + " " + bit[ctxDone]
+		c.Eval(line, true)
+		c.Count("select." + got + "." + bit[timerFired] + bit[ctxDone])
+		// the monitor: true only after the timer, ctx error only with a done context
+		if (got == "waited" && !timerFired) || (got == "cancelled" && !ctxDone) || got == "other" || (flood && got == "notflood") || (!flood && got != "notflood") {
+			c.Fail("flood-select", line, fmt.Sprintf("FloodWait returned (%v, %v)", ok, err))
+		}
+		selLines = append(selLines, line)
+		selGot = append(selGot, got)
+	}
+
+	// ---- 2c. matching helpers over error chains
+	mt := c.N(20000, 300000)
+	for i := 0; i < mt; i++ {
+		code := hc.Pick(r, 400, 420, 303, 500, -503, 0, r.Intn(1000))
+		words := make([]string, r.Range(1, 3))
+		for j := range words {
+			words[j] = genWord(r)
+		}
+		msg := strings.Join(words, "_")
+		if r.Chance(60) {
+			d, _ := genNumber(r)
+			msg += "_" + d
+		}
+		if r.Chance(20) {
+			msg = hc.Pick(r, "FLOOD_WAIT_3", "FLOOD_PREMIUM_WAIT_7", "FLOOD_WAIT", "", "X", "A__1", "5")
+		}
+		var base *tgerr.Error
+		var err error
+		kind := r.Intn(6)
+		switch kind {
+		case 0:
+			err = nil
+		case 1:
+			err = plainErr{"plain"}
+		case 2:
+			err = chain(r, plainErr{"inner plain"})
+		default:
+			base = tgerr.New(code, msg)
+			err = chain(r, base)
+		}
+		c.Count(fmt.Sprintf("match.kind=%d", min(kind, 3)))
+		t := hc.Pick(r, strings.Join(words, "_"), msg, "FLOOD_WAIT", genWord(r))
+		var tt []string
+		for j := r.Intn(4); j > 0; j-- {
+			tt = append(tt, hc.Pick(r, strings.Join(words, "_"), msg, "FLOOD_WAIT", "FLOOD_PREMIUM_WAIT", genWord(r)))
+		}
+		var codes []int
+		for j := r.Intn(4); j > 0; j-- {
+			codes = append(codes, hc.Pick(r, code, 400, 420, r.Intn(1000)))
+		}
+		var is, isCode, asType, as bool
+		str := "-"
+		pan := func() (p any) {
+			defer func() { p = recover() }()
+			is = tgerr.Is(err, tt...)
+			isCode = tgerr.IsCode(err, codes...)
+			_, asType = tgerr.AsType(err, t)
+			var found *tgerr.Error
+			found, as = tgerr.As(err)
+			if as {
+				str = hc.Hex([]byte(found.Error()))
+			}
+			return nil
+		}()
+		hexList := func(xs []string) string {
+			if len(xs) == 0 {
+				return "."
+			}
+			ys := make([]string, len(xs))
+			for i, x := range xs {
+				ys[i] = hc.Hex([]byte(x))
+			}
+			return strings.Join(ys, ",")
+		}
+		cl := "."
+		if len(codes) > 0 {
+			cs := make([]string, len(codes))
+			for i, x := range codes {
+				cs[i] = strconv.Itoa(x)
+			}
+			cl = strings.Join(cs, ",")
+		}
+		m := "none"
+		if base != nil {
+			m = hc.Hex([]byte(msg))
+		}
+		line := fmt.Sprintf("match %s %d %s %s %s", m, code, hc.Hex([]byte(t)), hexList(tt), cl)
+		c.Eval(line, base != nil)
+		if pan != nil {
+			c.Fail("panic", line, fmt.Sprint(pan))
+			continue
+		}
+		// the monitor: matching goes by the parsed Type / Code of the *Error in the chain
+		if base != nil {
+			wantIs := false
+			for _, x := range tt {
+				wantIs = wantIs || x == base.Type
+			}
+			wantCode := false
+			for _, x := range codes {
+				wantCode = wantCode || x == base.Code
+			}
+			if is != wantIs || isCode != wantCode || asType != (t == base.Type) || !as {
+				c.Fail("matching", line, fmt.Sprintf("Is=%v IsCode=%v AsType=%v As=%v for Type=%q Code=%d", is, isCode, asType, as, base.Type, base.Code))
+			}
+		} else if is || isCode || asType || as {
+			c.Fail("matching", line, "matched although the chain holds no *tgerr.Error")
+		}
+		b := map[bool]string{true: "1", false: "0"}
+		add(line, fmt.Sprintf("is=%s iscode=%s astype=%s as=%s str=%s", b[is], b[isCode], b[asType], b[as], str))
 	}
 
 	// ---- 3. other shapes: no argument, several numbers, empty parts, overflow, arbitrary strings
@@ -556,5 +729,23 @@ func run(c *hc.Ctx) error {
 	c.Res.Rule = "specification messages = 1..8 upper-case words (vocabulary of real error words incl. words with digits such as 2FA, MD5, B2B; or random letter/digit words containing a letter) joined by '_' with one decimal number (0..2^63−1, boundaries of int32/int64/Duration, 15% with leading zeros) inserted at a random position (all non-trivial); 25% are the two flood-wait types; other shapes: no number, several numbers, empty parts, numbers beyond int64, random bytes, non-ASCII digits (non-trivial unless empty). FloodWait is run with a recording clock (exact duration) and with a travelling neo clock (not before (arg+1)s−1ns, done at (arg+1)s) and a cancelled context. distinct = distinct request line"
 
 	c.PartialNote("FloodWait's select between timer and ctx.Done is modelled as an input (which is ready first); real-time behaviour of clock.System is not exercised")
+	// the select cases: what happened must be in the model's set of possible results
+	if len(selLines) > 0 && c.Drv != nil {
+		outs, err := c.Drv.Batch(selLines)
+		if err != nil {
+			return err
+		}
+		for i, o := range outs {
+			allowed := false
+			for _, x := range strings.Split(o, ",") {
+				allowed = allowed || x == selGot[i]
+			}
+			if allowed {
+				c.Res.TracesValidated++
+			} else {
+				c.Differ(selLines[i], selGot[i], o, "result not among the model's possible results")
+			}
+		}
+	}
 	return bt.Done()
 }
